@@ -290,4 +290,28 @@ CHECKS = {
         'technique': 'Coq proof (position arithmetic of the flat layout, dict-style container, round trip) + exact '
                      'vm_compute correspondence on tagged chains / estimates / draws',
     },
+    'C06': {
+        'text': 'Machine-checked proof (Properties/C06.v): every sampling transform T of a standard-normal variate is an '
+                'increasing bijection onto the support whose inverse S satisfies: exp(log-likelihood) integrates over '
+                '[a, b] to the standard-normal mass of [S a, S b] — Gaussian, multiplicative, log-normal and the documented '
+                '(one-variate) constant+multiplicative error models; Gaussian, log-normal and non-centred population '
+                'models (with the non-centred transform to individual parameters giving the centred draw); truncated '
+                'Gaussian: the scored density integrates to TG_cdf b - TG_cdf a, TG_cdf 0 = 0, i.e. the law of the inverse-'
+                'CDF sampler; get_mean_and_std: all raw moments of the log-normal density (mean and std formula) and the '
+                'mean of the truncated Gaussian as limits of integrals; REFUTED for chi\'s two-variate CMG sampler '
+                '(variance sb^2 + (m sr)^2 vs (sb + sr m)^2). Tied to /repo on every run: the NumPy / SciPy samplers are '
+                'reduced to primitive variates by identities re-checked each run; chi\'s sample(seed) of every error and '
+                'population model (plain, reduced, covariate-wrapped, composed) equals the transform applied to the '
+                'primitive stream of that seed in plan order; CoqInterval certifies sampled values against the Coq '
+                'transforms, TG_cdf(sample) = uniform variate, and get_mean_and_std against LN_mean / LN_std / TG_mean / '
+                'TG_std; directly: fixed-seed Kolmogorov-Smirnov and moment tests with 20000 draws per dimension.',
+        'note': 'Partial: that NumPy\'s primitive variates are i.i.d. standard normal / uniform is assumed (the theorems are '
+                'about the transforms); joint independence across positions is structural (disjoint primitive variates) and '
+                'checked by replay, not proved; the truncated-Gaussian std formula is certified numerically against '
+                'TG_std but TG_std is not proved to be the second central moment; heterogeneous / pooled samplers are '
+                'checked directly. Trusted: Coq kernel, stdlib, Coquelicot, CoqInterval, ' + STD_AXIOMS + '; SciPy '
+                'distribution functions in the statistical search. One open known finding (CMG sampler).',
+        'technique': 'Coq proof (change of variables for integrals, limits of truncated moments) + primitive-stream '
+                     'replay + CoqInterval-certified correspondence',
+    },
 }
